@@ -54,6 +54,8 @@ pub enum Step {
     Throttle(Vec<WAns>),
     /// let this much virtual time pass; keep-alive ticks that fall inside are delivered one by one
     Wait(u64),
+    /// real (wall-clock) pause of the client, milliseconds: the clock read by the cookie check moves on
+    RealSleep(u64),
 }
 
 /// answers of the throttled server-side transport to `poll_write`
@@ -185,6 +187,7 @@ struct Runner<'a> {
     step_i: usize,
     t0: tokio::time::Instant,
     packet_ms: Vec<u64>,
+    wall_override: Option<u64>,
 }
 
 impl Runner<'_> {
@@ -308,6 +311,7 @@ impl Runner<'_> {
     async fn run_step(&mut self, step: &Step) {
         match step {
             Step::Tick | Step::AdapterDone | Step::Eof | Step::Throttle(_) => { self.event(step).await; self.settle_and_drain().await; }
+            Step::RealSleep(ms) => { std::thread::sleep(Duration::from_millis(*ms)); self.wall_override = Some(wall()); }
             Step::Wait(ms) => {
                 let period = Duration::from_secs(16);
                 let target = tokio::time::Instant::now() + Duration::from_millis(*ms);
@@ -388,7 +392,7 @@ async fn execute_async(sc: &Scenario, other_key: &rsa::RsaPublicKey) -> Outcome 
 
     let mut r = Runner { sc, other_key, client, gate, wsched: wsched.clone(), log: log.clone(), enc: None, rx_plain: vec![], parsed_upto: 0,
         phase: ClientPhase::Handshake, packets: vec![], packet_step: vec![], call_step: vec![], inputs: vec![], inputs1: vec![],
-        rsa_pairs: vec![], token: None, ka_ids: vec![], undecodable: false, presented: vec![], step_i: 0, t0: tokio::time::Instant::now(), packet_ms: vec![] };
+        rsa_pairs: vec![], token: None, ka_ids: vec![], undecodable: false, presented: vec![], step_i: 0, t0: tokio::time::Instant::now(), packet_ms: vec![], wall_override: None };
     for (i, step) in sc.steps.iter().enumerate() {
         r.step_i = i;
         r.run_step(step).await;
@@ -401,6 +405,8 @@ async fn execute_async(sc: &Scenario, other_key: &rsa::RsaPublicKey) -> Outcome 
     let mut panicked = false;
     let result = if task.is_finished() { match task.await { Ok(res) => result_name(&res), Err(e) => if e.is_panic() { panicked = true; "panic".into() } else { "cancelled".into() } } } else { task.abort(); "running".into() };
     let wall_after = wall();
+    // after a real pause the clock the cookie check read is the one at the presentation
+    let wall_before = r.wall_override.unwrap_or(wall_before);
     let Runner { packets, packet_step, mut call_step, inputs, inputs1, rsa_pairs, token, ka_ids, undecodable, presented, packet_ms, .. } = r;
 
     // merge adapter calls and packets into one ordered event list
